@@ -82,6 +82,7 @@ def r03_2(prog, out):
 
 
 @rule("C03", "R03.3", "every hand-out uses a fresh ack id: read the counter, then advance it by AckId::next", floor=3)
+@rule("C02", "R03.3", "every hand-out uses a fresh ack id: read the counter, then advance it by AckId::next", floor=3)
 def r03_3(prog, out):
     R = roles(prog)
     A = prog.anchors
